@@ -567,6 +567,8 @@ where
     T: DeserializeOwned + garde::Validate,
     <T as garde::Validate>::Context: Default,
 {
+    // Normalize: ignore a single leading UTF-8 BOM if present.
+    let input = input.strip_prefix('\u{FEFF}').unwrap_or(input);
     let with_snippet = options.with_snippet;
     let crop_radius = options.crop_radius;
 
@@ -955,6 +957,8 @@ pub fn from_multiple_with_options_validate<T>(
 where
     T: DeserializeOwned + ValidatorValidate,
 {
+    // Normalize: ignore a single leading UTF-8 BOM if present.
+    let input = input.strip_prefix('\u{FEFF}').unwrap_or(input);
     let with_snippet = options.with_snippet;
     let crop_radius = options.crop_radius;
 
